@@ -172,6 +172,15 @@ class Interp:
         if known is None:
             known = self._ex_info(o["ex"], ex, "reusable", o.get("kw", {}))
             self.obs.executors[len(self.obs.executors)] = known
+        # singleton: every instance ever handed out that is not the current one has been shut down (or broke)
+        cur_ = re_mod._executor
+        stale_live = []
+        for info_ in self.obs.executors.values():
+            if info_["kind"] == "reusable":
+                e_ = info_["wref"]()
+                if e_ is not None and e_ is not cur_ and not e_._flags.shutdown and e_._flags.broken is None \
+                        and re_mod._executor is cur_:
+                    stale_live.append((info_["n"], e_.executor_id))
         self.slots[o["ex"]] = ex
         alive_old = []
         if prev is not None and prev is not ex:
@@ -188,7 +197,7 @@ class Interp:
             prev_state["broken_at_return"] = prev._flags.broken is not None
             prev_state["shutdown_at_return"] = prev._flags.shutdown
         return dict(n=known["n"], id=ex.executor_id, same=(prev is ex), prev=prev_state, old_pids=old_pids, fresh=fresh,
-                    started=ex._executor_manager_thread is not None,
+                    started=ex._executor_manager_thread is not None, stale_live=stale_live,
                     old=alive_old, max_workers=ex._max_workers,
                     broken=ex._flags.broken is not None, shutdown=ex._flags.shutdown,
                     pids=sorted(procs), alive=sorted(p for p in procs if k.procs[p].alive),
